@@ -167,3 +167,11 @@ func arrayNodes(n *ref.Node) int {
 	}
 	return c
 }
+
+// abiIns feeds log data through Integration.Insert (pure builds only: in instrumented builds Insert takes the
+// shimmed mutex type and the ABI checks are not linked).
+type abiIns interface {
+	insert(data []byte) (n int, err error, panicked string)
+}
+
+var newAbiIns = func(ev dig.Event) (abiIns, bool) { return nil, false }
